@@ -124,31 +124,50 @@ class VFloat(Val):
 
 class VMpf(Val):
     """mpmath.mpf at working precision PREC bits.
-    t   : z3 Real / Fraction  -- the value the executor reasons with
-    dy  : int k with value in 2**-k * Z  (exactly representable while |t|*2**k < 2**PREC), or None
-    err : Fraction absolute error bound between t (ideal value) and the computed mpf, 0 if exact
-    mag : Fraction or None -- concrete bound on |t| (from bound hints), used for error propagation
+
+    rational form: ideal value == num / den with num an integer term (python int | z3 Int) and den a positive
+                   python int; arithmetic is integer arithmetic on numerators.  The value is *exact* (the mpf
+                   object holds exactly num/den) when den is a power of two and err == 0.
+    real form    : num is None; t is the ideal real value.
+    err          : Fraction bound on |computed - ideal| (0 for exact values); None = not tracked
+                   ("inexact operations treated as real arithmetic", reported as an assumption).
     """
     pytype = 'mpf'
 
-    def __init__(self, t, dy=0, err=Fraction(0), mag=None):
-        if isinstance(t, int):
-            t = Fraction(t)
-        self.t = t
-        self.dy = dy
+    def __init__(self, num=None, den=1, t=None, err=Fraction(0), mag=None):
+        if isinstance(num, z3.ArithRef) and z3.is_int_value(num):
+            num = num.as_long()
+        self.num = num
+        self.den = den
+        self._t = t
         self.err = err
         self.mag = mag
 
+    def rational(self):
+        return self.num is not None
+
+    def exact(self):
+        return self.num is not None and self.err == 0 and self.den & (self.den - 1) == 0
+
+    @property
+    def t(self):
+        if self._t is not None:
+            return self._t
+        if isinstance(self.num, int):
+            return Fraction(self.num, self.den)
+        return z3.ToReal(self.num) / self.den if self.den != 1 else z3.ToReal(self.num)
+
     def conc(self):
-        return isinstance(self.t, Fraction)
+        return isinstance(self.num, int) if self.rational() else isinstance(self._t, Fraction)
 
     def z(self):
-        if isinstance(self.t, Fraction):
-            return z3.RealVal(str(self.t))
-        return self.t
+        t = self.t
+        if isinstance(t, Fraction):
+            return z3.RealVal(str(t))
+        return t
 
     def __repr__(self):
-        return f'VMpf({self.t}, dy={self.dy}, err={self.err})'
+        return f'VMpf(num={self.num}, den={self.den}, err={self.err})'
 
 
 class VTuple(Val):
